@@ -298,3 +298,12 @@ func MapErr(ret int32, desc string) error {
 	}
 	return nil
 }
+
+// a counted loop whose bound is a second variable of the init statement
+func SumTo(n int8, from int8) int {
+	t := 0
+	for i, e := from, n; i < e; i++ {
+		t += int(i) * 3
+	}
+	return t
+}
